@@ -1357,8 +1357,24 @@ func (x *Exec) sortSlice(f *frame, cc *ssa.CallCommon, args []Value, n *node, st
 	for q, fv := range cl.fn.FreeVars {
 		sc.vars[fv.Name()] = cl.binds[q]
 	}
-	lessNext := sc.evalBool(def)
-	x.assume(st.pc, Forall([]*Term{i}, Implies(And(Le(off, i), Lt(Add(i, Num(1)), hi)), Not(lessNext)), Select(after, i)), "sort.Slice order")
+	var lessNext *Term
+	func() {
+		defer func() {
+			if r := recover(); r != nil {
+				ee, ok := r.(*EngineError)
+				if !ok {
+					panic(r)
+				}
+				// the contract of less speaks of variables this closure does not capture (any more):
+				// nothing is known about the order then, and whatever relies on it is left to fail
+				x.note("sort.Slice: no order assumed, the contract of " + c.Key + " cannot be evaluated at the call (" + ee.Msg + ")")
+			}
+		}()
+		lessNext = sc.evalBool(def)
+	}()
+	if lessNext != nil {
+		x.assume(st.pc, Forall([]*Term{i}, Implies(And(Le(off, i), Lt(Add(i, Num(1)), hi)), Not(lessNext)), Select(after, i)), "sort.Slice order")
+	}
 	x.note("assumed: sort.Slice permutes the slice in place into an order with !less(k+1, k) for neighbours (less taken from the contract of " + c.Key + ")")
 	_ = pos
 }
